@@ -304,16 +304,24 @@ def translate(repo):
         if name in structs:
             structs[name]["aliases"] = rows
     enums = {}
+    for sn, s in structs.items():
+        for en, items in s["local_enums"].items():
+            enums["%s::%s" % (sn, en)] = {"file": s["file"], "enumerators": items, "table": [], "has_table": False,
+                                          "cxx": "%s::%s" % (s["cxx"], en)}
     for ty, rows in enumt:
+        m = re.fullmatch(r"(%s)<config_t>::(%s)" % (IDENT, IDENT), ty)
+        if m:                                   # enumeration declared inside a parameter structure
+            key = "%s::%s" % (m.group(1), m.group(2))
+            if key in enums:
+                enums[key]["table"] = rows; enums[key]["has_table"] = True
+            else:
+                oog.append("enum %s: definition not found inside struct %s" % (ty, m.group(1)))
+            continue
         d = find_definition(files, r"enum\s+class|enum\s+struct|enum", ty)
         items = enum_values(parse_enum_body(d[1], oog, ty), oog, ty) if d else []
         if d is None:
             oog.append("enum %s: definition not found" % ty)
         enums[ty] = {"file": d[0] if d else None, "enumerators": items, "table": rows, "has_table": True, "cxx": ty}
-    for sn, s in structs.items():
-        for en, items in s["local_enums"].items():
-            enums["%s::%s" % (sn, en)] = {"file": s["file"], "enumerators": items, "table": [], "has_table": False,
-                                          "cxx": "%s::%s" % (s["cxx"], en)}
     # enum-typed fields whose enum has no table specialisation but is defined at namespace scope
     for sn, s in structs.items():
         for f in s["fields"]:
